@@ -72,8 +72,9 @@ __CPROVER_ensures(__CPROVER_return_value.count == g_relax.count && __CPROVER_ret
 LPE_RULES = Q_RULES + [
     Rule(r"Span<Secondary> secondaries;", "SpanSecondary secondaries = {0, 0};", 1, note="default Span"),
     Rule(r"relaxation_\.max_secondaries\(\)", "self->relaxation_.max_secondaries_", "*", note="helper accessor"),
-    Rule(r"(?<![\w.>])relaxation_ \?", "self->relaxation_.enabled ?", "*", note="helper operator bool"),
-    Rule(r"if \(Secondary\* ptr = allocate_\(count\)\)", "Secondary* ptr = ALLOC_call(count);\n    if (ptr)", 1, note="if-with-declaration -> declaration + if; allocator functor -> stub with the c16_alloc contract"),
+    Rule(r"if \(Secondary\* ptr = allocate_\(count\)\)", "Secondary* ptr = ALLOC_call(count);\n    if (ptr)", (0, 1), note="if-with-declaration -> declaration + if"),
+    Rule(r"\ballocate_\(", "ALLOC_call(", "*", note="allocator functor -> stub with the c16_alloc contract"),
+    Rule(r"\bnullptr\b", "0", "*", note="nullptr"),
     Rule(r"secondaries = \{ptr, count\};", "secondaries.ptr = ptr; secondaries.size = count;", 1, note="Span aggregate assignment"),
     Rule(r"Interaction::from_(failure|absorption)\(\)", r"Interaction_from_\1()", "+", note="static factory (extracted)"),
     Rule(r"SubshellId shell_id = this->sample_subshell\(rng\);", "size_type shell_id = LPE_sample_subshell(self, rng);", 1, note="member call -> stub"),
@@ -85,11 +86,12 @@ LPE_RULES = Q_RULES + [
     Rule(r"electron\.particle_id = shared_\.ids\.electron;", "electron->particle_id = self->electron_id;", 1, note="params id"),
     Rule(r"electron\.energy = ", "electron->energy = ", 1, note="reference -> pointer"),
     Rule(r"electron\.direction = this->sample_direction\(rng\);", "electron->direction = LPE_sample_direction(self, rng);", 1, note="member call -> stub"),
-    Rule(r"if \(relaxation_\)", "if (self->relaxation_.enabled)", 1, note="helper operator bool"),
+    Rule(r"if \(relaxation_\)", "if (self->relaxation_.enabled)", (0, 1), note="helper operator bool"),
     Rule(r"AtomicRelaxation sample_relaxation = relaxation_\.build_distribution\(\s*cutoffs_, shell_id, secondaries\.subspan\(1\)\);", "SpanSecondary sub_ = {secondaries.ptr + 1, secondaries.size - 1};", 1, note="distribution construction -> the subspan it writes to"),
     Rule(r"auto outgoing = sample_relaxation\(rng\);", "RelaxResult outgoing = RELAX_sample(self, shell_id, sub_, rng);", 1, note="relaxation cascade -> stub with assumed contract"),
     Rule(r"secondaries = \{secondaries\.data\(\), 1 \+ outgoing\.count\};", "secondaries.size = 1 + outgoing.count;", 1, note="Span aggregate assignment"),
     Rule(r"value_as<Energy>\(outgoing\.energy\)", "outgoing.energy", 1, note="Quantity value"),
+    Rule(r"(?<![\w.>])relaxation_\b(?!\.)", "self->relaxation_.enabled", "*", note="helper operator bool (any remaining boolean use)"),
 ]
 
 
